@@ -235,12 +235,16 @@ static std::string kernelIR(const std::string &src) {
   p.parseSource(src);
   if (!p.success) return "parse-error";
   statementArray ks = p.root.children.getKernelStatements();
-  if (ks.length() != 1) return "kernels=" + occa::toString((int) ks.length());
-  functionDeclStatement &k = (functionDeclStatement&) *ks[0];
+  if (ks.length() < 1) return "kernels=0";
   std::ostringstream o;
-  o << "K:" << ((*k.function().returnType.type == void_) ? "v" : "n") << " ( ";
-  irChildren(k, o);
-  o << ")";
+  // several kernels in one source: their IRs joined by '+'
+  for (int i = 0; i < (int) ks.length(); ++i) {
+    functionDeclStatement &k = (functionDeclStatement&) *ks[i];
+    if (i) o << "+";
+    o << "K:" << ((*k.function().returnType.type == void_) ? "v" : "n") << " ( ";
+    irChildren(k, o);
+    o << ")";
+  }
   std::string s = o.str();
   for (char &c : s) if (c == ' ') c = '_';
   return s;
